@@ -48,6 +48,7 @@ public:
     std::map<valtype,valtype> pretend_valid_map;
     std::set<valtype> pretend_valid_pubkeys;
     bool has_preamble;
+    bool allow_disabled_opcodes{false}; ///< --allow-disabled-opcodes; must be set before setup_environment()
 
     Instance()
     : env(nullptr)
